@@ -367,6 +367,20 @@ def elements(H, tier):
     out.append(("dynamic", [worker("w"), req("a", "w", dynamic=True), req("b", "w")]))
     out.append(("delay", [worker("w"), req("a", "w", delay_in=2), req("b", "w", delay_in=1)]))
     out.append(("delay", [worker("w"), req("a", "w", delay_in=3), req("b", "w", early_out=1)]))
+    # a worker that joins late: the busy interval of the task, once unscheduled, ends before it starts - every
+    # resource-constraint class must still leave it alone
+    for dl in (2, 3):
+        DW = [worker("w"), req("a", "w", delay_in=dl), req("b", "w")]
+        for (clab, cdecl) in (
+                ("unavailable", con("ResourceUnavailable", "c1", resource=R("w"), list_of_time_intervals=[(0, 1)])),
+                ("interrupted", con("ResourceInterrupted", "c1", resource=R("w"), list_of_time_intervals=[(0, 1)])),
+                ("interrupted2", con("ResourceInterrupted", "c1", resource=R("w"), list_of_time_intervals=[(1, 2), (3, 4)])),
+                ("periodic-unavailable", con("ResourcePeriodicallyUnavailable", "c1", resource=R("w"), list_of_time_intervals=[(0, 1)], period=3)),
+                ("periodic-interrupted", con("ResourcePeriodicallyInterrupted", "c1", resource=R("w"), list_of_time_intervals=[(0, 1)], period=3)),
+                ("workload", con("WorkLoad", "c1", resource=R("w"), kind="max", dict_time_intervals_and_bound={"$tupkeys": [[[0, 3], 2]]})),
+                ("distance", con("ResourceTasksDistance", "c1", resource=R("w"), distance=1, mode="min")),
+                ("nondelay", con("ResourceNonDelay", "c1", resource=R("w")))):
+            out.append((f"delay{dl}+{clab}", DW + [cdecl]))
     for cls in ("NonConcurrentBuffer", "ConcurrentBuffer"):
         out.append((cls, [new(cls, "bf", name="bf", initial_level=2, lower_bound=0),
                           con("TaskUnloadBuffer", "c1", task=R("a"), buffer=R("bf"), quantity=2),
